@@ -13,6 +13,10 @@
 (*         iLong existing 190-character path  iNoArg (-i without argument) *)
 (*         iProc readable file in a directory that cannot take new files   *)
 (*         iLen122 / iLen123 existing paths of exactly 122 / 123 characters*)
+(*         iBadC / iBadH the valid file with cipher-mode byte 5 / hash-mode *)
+(*         byte 3 (first values out of range)  iTam the valid file with its *)
+(*         last byte changed  iEmpty an empty file  (all four: readable     *)
+(*         files that are fine as plaintext and not authentic as .wenc)     *)
 (*  output oO creatable path  oBad path in a directory that does not exist *)
 (*  key    kK right key  kW well-formed wrong key  kShort(23) kBadChar     *)
 (*         kNoPad(24, no '=') kOnePad(24, one '=') kLong(28)               *)
@@ -25,7 +29,7 @@ EXTENDS Naturals, Sequences, FiniteSets
 ModeTok == {"e", "d", "v", "V", "h", "le", "ld", "lv", "en", "dn", "vn"}
 ModeOf(t) == CASE t \in {"e", "le", "en"} -> "e" [] t \in {"d", "ld", "dn"} -> "d" [] t \in {"v", "lv", "vn"} -> "v"
                [] t = "V" -> "V" [] t = "h" -> "h"
-Tokens == ModeTok \cup {"n", "iF", "iE", "iMissing", "iLong", "iLen122", "iLen123", "iProc", "iNoArg", "oO", "oBad", "kK", "kW", "kShort", "kBadChar",
+Tokens == ModeTok \cup {"n", "iF", "iE", "iMissing", "iLong", "iLen122", "iLen123", "iProc", "iNoArg", "iBadC", "iBadH", "iTam", "iEmpty", "oO", "oBad", "kK", "kW", "kShort", "kBadChar",
                         "kNoPad", "kOnePad", "kLong", "kHigh", "c2", "c5", "c100", "c256", "c260", "cabc", "h1", "h3", "h256", "x", "stray"}
 S0 == [mode |-> "u", ct |-> FALSE, ht |-> FALSE, in |-> "none", out |-> "none", key |-> "none", quiet |-> FALSE, err |-> FALSE, may |-> FALSE]
 
@@ -40,6 +44,7 @@ Step(s, t) ==
   ELSE IF t \in {"iLong", "iLen123"} THEN [s EXCEPT !.in = "L"]      \* 123 + ".wenc" + NUL does not fit 128 bytes
   ELSE IF t = "iLen122" THEN [s EXCEPT !.in = "F"]                      \* the longest path whose default output name fits
   ELSE IF t = "iProc" THEN [s EXCEPT !.in = "R"]
+  ELSE IF t \in {"iBadC", "iBadH", "iTam", "iEmpty"} THEN [s EXCEPT !.in = "X"]
   ELSE IF t \in {"iMissing", "iNoArg", "oBad", "kShort", "kBadChar", "kNoPad", "kOnePad", "kLong", "kHigh", "c5", "c100", "c256", "c260", "h3", "h256", "x"}
        THEN [s EXCEPT !.err = TRUE]
   ELSE IF t = "oO" THEN [s EXCEPT !.out = "O"]
